@@ -19,7 +19,11 @@ PARTIAL = [
     "accepted factors, rowArea <= 2^63), from the accumulation-error theorem byFactorF_expandedArea_error (exact sum * "
     "(1-2^-53)^(4n) <= accumulated double, which is 0 or >= 1/4) and the float-path theorems "
     "(byFactorF_utilisation_partial: (1+2^-24) for widths <= 2^24; byFactorF_utilisation_partial_any_width: (1+2^-24)^2; every "
-    "applied factor >= 0.999f, >= 1 when the given one is); NOT proved: the branch in which the factors are scaled by `ratio` "
+    "applied factor >= 0.999f, >= 1 when the given one is); the branch in which the factors are scaled by `ratio` is proved UP TO THE COMPUTED RATIO "
+    "(byFactorF_cap_adjusted_partial, float factors 1 <= e <= 2^53: area after <= (1+2^-24)^3*(1+2^-53)^2 * (A + rho*(S - A)) "
+    "with rho the double ratio the code computes, 0 <= rho <= 1, S the exact sum(e_i*area_i); lemmas adjust_le, "
+    "expandedArea_adjust_le); NOT proved: that the computed rho satisfies rho*(S - A) <= maxDensity*rowArea - A up to rounding "
+    "(needs the upper side of the accumulation error and two-sided bounds of density and of the two differences) "
     "(byFactorF_utilisation_full_statement stays a def: <= max(maxDensity*rowArea, area before)*(1+2^-22) + "
     "n*2^-50*sum(e_i*area_i)); that branch is proved only in exact arithmetic (byFactor_under_cap) and supported with rounding "
     "by the exact correspondence and the oracle (1e-6)",
